@@ -131,7 +131,7 @@ def run_case(case):
 
 
 def _cases(tier, alphabet="ab", L=None, compiled=False):
-    L = L or (4 if tier == "quick" else 5)
+    L = L or (4 if tier == "quick" else 6)
     strings = sigma(alphabet, L)
     tests = sigma(alphabet, 3) + ["z", "azb", alphabet[0] * 7, (alphabet * 4)]
     kws = []
